@@ -1,6 +1,6 @@
 """U-reach: function_is_actually_in_use / compute_functions_actually_in_use, verbatim (C12)."""
 from vf.core import Unit
-from vf.rustcut import SourceFile
+from vf.rustcut import SourceFile, Undecided
 from . import common
 
 NAME = "U-reach"
@@ -73,7 +73,7 @@ pub proof fn lemma_closed_contains(t: Tree, s: Set<String>, a: Seq<char>, b: Seq
 
 // ---- R6 shim environment ------------------------------------------------------------------------------------------
 pub struct Error { pub e: u8 }
-pub struct Function { pub interrupt: bool }                      // only the field the unit reads
+%(function_shim)s
 pub struct CompilerState { pub functions: HashMap<String, Function> }
 pub struct GeneratorState<'a> {
     pub compiler_state: &'a CompilerState,
@@ -93,6 +93,7 @@ def build(repo):
     ga = SourceFile(repo, "src/generate/generate_asm.rs")
     f = ga.fn("function_is_actually_in_use", within="GeneratorState")
     cuts = [f]
+    common.r14_map_or(f)
     f.set_header("""#[verifier::exec_allows_no_decreases_clause]
     fn function_is_actually_in_use(
         &self,
@@ -231,7 +232,11 @@ def build(repo):
             }
         }
 """)
-    text = common.PRELUDE + common.header_comment(NAME, cuts) + "verus! {\n" + SPECS + \
+    fshim, fcut = common.plain_fields_shim(SourceFile(repo, "src/compile.rs"), "Function", "Function")
+    if "interrupt: bool" not in fshim:
+        raise Undecided("struct Function has no `interrupt: bool` field any more")
+    specs = SPECS.replace("%(function_shim)s", "// R6 shim: the plain (bool / integer) fields of the real struct, mechanically\n" + fshim)
+    text = common.PRELUDE + common.header_comment(NAME, cuts) + "verus! {\n" + specs + \
         "impl<'a> GeneratorState<'a> {\n" + f.text + "\n" + c.text + "\n}\n" + common.CANARY + "\n} // verus!\n"
     u.text[None] = text
     u.rewrites = common.collect_rewrites(cuts)
